@@ -28,6 +28,7 @@
 #include "bufr_meta.h"
 
 static BUFR_Tables *tables = NULL;
+static void quiet(const char *m){ (void)m; }     /* the library's debug/progress chatter is not part of the protocol */
 
 static void load_tables(void){
   char env[4096];
@@ -259,6 +260,8 @@ int main(void){
   char *line;
   bufr_begin_api();
   bufr_set_abort(h_abort_handler);
+  bufr_set_debug_handler(quiet);
+  bufr_set_output_handler(quiet);
   bufr_enable_meta(1);
   load_tables();
   while((line=h_getline())){
